@@ -9,7 +9,7 @@
     Statements only; proofs in Proofs/Safety_Proofs.v and the per-model files. *)
 From Coq Require Import ZArith QArith List.
 From SB Require Import Base.Prelude Base.Num Gen.Generated Model.Codec Model.Crc Model.Container Model.Loaders
-  Model.Traj Model.Yaw Model.Rth Model.Light Spec.LightSpec Proofs.Safety_Proofs.
+  Model.Traj Model.Yaw Model.Rth Model.Light Spec.LightSpec Proofs.Light_Proofs Proofs.Safety_Proofs.
 Import ListNotations.
 Local Open Scope Z_scope.
 
@@ -59,13 +59,13 @@ Proof. exact Safety_Proofs.rth_short_header. Qed.
     the end marker), the loop stack never exceeds its capacity, jump targets
     are validated *)
 Theorem light_loop_stack_bounded : forall prog fuel ts p,
-  Light_Safety.run_seeks fuel prog (player_fresh prog) ts = Ok p ->
+  Light_Proofs.run_seeks fuel prog (player_fresh prog) ts = Ok p ->
   Z.of_nat (length (loops (ex p))) <= CONFIG_MAX_LOOP_DEPTH.
 Proof. exact Safety_Proofs.light_loop_stack_bounded. Qed.
 Print Assumptions light_loop_stack_bounded.
 
 Theorem light_pc_valid : forall prog fuel ts p,
-  Light_Safety.run_seeks fuel prog (player_fresh prog) ts = Ok p -> 0 <= pc (ex p) < 2147483647 + Z.of_nat (length prog) + 1.
+  Light_Proofs.run_seeks fuel prog (player_fresh prog) ts = Ok p -> 0 <= pc (ex p) < 2147483647 + Z.of_nat (length prog) + 1.
 Proof. exact Safety_Proofs.light_pc_valid. Qed.
 Print Assumptions light_pc_valid.
 
